@@ -155,6 +155,9 @@ def mask_query(tier: str, prop: str) -> list[dict]:
         dict(d, policy="mlp_ac", kind="multidiscrete", dims=[2, 2], K=2048, L=4),
         dict(d, policy="table_ac", kind="multibinary", dims=[2], K=2048, L=4),
         dict(d, policy="table_ac", kind="discrete", dims=[3], K=2048, L=4),
+        # SAC policies (continuous actions, no masks): key-less = mode of the reported law, keyed log-prob = that law's log-prob
+        dict(d, policy="mlp_sac", kind="box", dims=[2, 2], K=16, L=6),
+        dict(d, policy="mlp_sac", kind="boxscalar", dims=[4], K=16, L=6),
         # non-default (documented) network depths: the mask must be applied whatever the head looks like
         dict(d, policy="mlp_ac", kind="discrete", dims=[3], K=32, L=8, mlp_kwargs={"action_depth": 1}),
         dict(d, policy="mlp_ac", kind="multibinary", dims=[2], K=32, L=8, mlp_kwargs={"action_depth": 1, "value_depth": 1, "feature_depth": 1}),
